@@ -4,6 +4,7 @@ import (
 	"fmt"
 	"go/token"
 	"go/types"
+	"math/big"
 	"os"
 
 	"golang.org/x/tools/go/ssa"
@@ -47,7 +48,13 @@ func staticCallSites(fn *ssa.Function) []*ssa.Call {
 			}
 		}
 	}
-	return sites
+	// uses through the wrapper of a method expression: calls through a fixed table of functions are
+	// call sites too; any other such use leaves the call sites unknown (ext_x8.go)
+	extra, ok := feCtx.indirectCallSites(fn)
+	if !ok {
+		return nil
+	}
+	return append(sites, extra...)
 }
 
 // fieldLenAtCall: the length of slice field f of the object arg points to, as the caller knows
@@ -125,6 +132,24 @@ func (fi *funcInfo) entryFacts() []Lin {
 						callee: fi.lenOf(pj).sub(fi.term(pi)).addK(-k),
 						caller: func(cfi *funcInfo, call *ssa.Call) (Lin, bool) {
 							return cfi.lenOf(call.Call.Args[j]).sub(cfi.term(call.Call.Args[i])).addK(-k), true
+						},
+					})
+				}
+			}
+		}
+		if _, _, isInt := isIntType(pi.Type()); isInt {
+			// a count of items that expand to two bytes each: 2*i <= len(s), 2*i-1 <= len(s)
+			for j, pj := range fn.Params {
+				if !isSliceLike(pj.Type()) {
+					continue
+				}
+				i, j := i, j
+				for _, k := range []int64{0, -1} {
+					k := k
+					cands = append(cands, cand{
+						callee: fi.lenOf(pj).addScaled(fi.term(pi), big.NewRat(-2, 1)).addK(-k),
+						caller: func(cfi *funcInfo, call *ssa.Call) (Lin, bool) {
+							return cfi.lenOf(call.Call.Args[j]).addScaled(cfi.term(call.Call.Args[i]), big.NewRat(-2, 1)).addK(-k), true
 						},
 					})
 				}
